@@ -66,6 +66,8 @@ type e2client struct {
 	coll string
 	dts  map[string]*e2dt
 	cuid string
+	// the previous request of every key, as it was sent (fault "again": it reaches the server once more, later)
+	sent map[string]*model.PushPullPack
 }
 
 type heldResp struct {
@@ -439,6 +441,9 @@ func (m *e2Machine) Enabled() []pt.Action {
 				as = append(as, pt.Action{Op: "xchg", R: c.idx, T: k, K: "ok"})
 				if m.nfault < m.p.MaxFault {
 					for _, f := range m.p.Faults {
+						if f == "again" && (c.sent == nil || c.sent[k] == nil) {
+							continue
+						}
 						as = append(as, pt.Action{Op: "xchg", R: c.idx, T: k, K: f})
 					}
 				}
@@ -456,6 +461,18 @@ func (m *e2Machine) Enabled() []pt.Action {
 func (m *e2Machine) exchange(c *e2client, key, fault string) *pt.Violation {
 	d := c.dts[key]
 	pack := d.rep.dt.CreatePushPullPack()
+	if fault == "again" {
+		// not a new request: a copy of the previous one arrives (late) and is answered; the answer reaches the client
+		pack = c.sent[key]
+	} else {
+		if c.sent == nil {
+			c.sent = map[string]*model.PushPullPack{}
+		}
+		b, _ := proto.Marshal(pack)
+		var keep model.PushPullPack
+		proto.Unmarshal(b, &keep)
+		c.sent[key] = &keep
+	}
 	req := model.NewPushPullMessage(0, &model.Client{CUID: c.cuid, Collection: c.coll}, pack)
 	send := func() (*model.PushPullMessage, error) {
 		ctx, cancel := gocontext.WithCancel(gocontext.Background())
